@@ -507,7 +507,7 @@ func lex(s string) ([]lexTok, error) {
 			toks = append(toks, lexTok{"id", s[i:j], i})
 			i = j
 		default:
-			ops := []string{"<==>", "==>", "==", "!=", "<=", ">=", "&&", "||", ":=", "<", ">", "+", "-", "*", "/", "%", "!", "(", ")", "[", "]", ",", ".", "?", ":"}
+			ops := []string{"<==>", "==>", "::", "==", "!=", "<=", ">=", "&&", "||", ":=", "<", ">", "+", "-", "*", "/", "%", "!", "(", ")", "[", "]", ",", ".", "?", ":"}
 			matched := false
 			for _, op := range ops {
 				if strings.HasPrefix(s[i:], op) {
@@ -561,6 +561,31 @@ func (p *parser) isId(s string) bool {
 func bin(op string, a, b *Expr) *Expr { return &Expr{Kind: "binop", Name: op, Args: []*Expr{a, b}} }
 
 func (p *parser) parseIff() (*Expr, error) {
+	// forall x:Sort :: body
+	if p.isId("forall") {
+		p.next()
+		v := p.next()
+		if v.kind != "id" {
+			return nil, fmt.Errorf("forall: expected variable")
+		}
+		if !p.isOp(":") {
+			return nil, fmt.Errorf("forall: expected ':'")
+		}
+		p.next()
+		srt := p.next()
+		if srt.kind != "id" {
+			return nil, fmt.Errorf("forall: expected sort")
+		}
+		if !p.isOp("::") {
+			return nil, fmt.Errorf("forall: expected '::'")
+		}
+		p.next()
+		body, err := p.parseIff()
+		if err != nil {
+			return nil, err
+		}
+		return &Expr{Kind: "forall", Name: v.text, Str: srt.text, Args: []*Expr{body}}, nil
+	}
 	l, err := p.parseImp()
 	if err != nil {
 		return nil, err
